@@ -12,6 +12,14 @@ Proof: coq/Properties_C16.v
        Merge by copy / move, Remove / RemoveIndex, Compress, Reset, destruction, in the order of the C++):
        for every history on a pool of variables the run never releases or reads a dead block, every block is
        owned exactly as often as it is live, and destroying the pool leaves no live block.
+       (3) Array<Node> with nested Array<Node> (coq/LedgerNestedModel.v, the D52 shapes of cpp/drv_nested.cpp):
+       the element block is explicit, a reference to the array record of an element dangles once the enclosing
+       array grows; for every history of d += Node, d = Move(s), d = s, d += s, d += Move(s) (s anywhere, in
+       particular inside d), in the order of the current code: no read through a dangling reference, no release
+       of a dead block, ledger kept, destruction leaves nothing live; the pre-D52 orders are Error UAF (Example).
+       This model is also RUN: extracted (coq/Extract_ledger.v, ocaml/ledger.ml) and compared, contents after every
+       step, with the real Array<Node> (cpp/drv_ledger_nested.cpp) and with an extracted value-semantics
+       specification (nested vectors) as the oracle.
        Hash-table internals, tag records, expression lists and the parsers' failure paths have no ownership
        model: they are covered by the runtime ledger below only.
 Tie / runtime: the library's own allocator seam (Memory::Allocate / Deallocate call MemoryRecord
@@ -22,6 +30,7 @@ Tie / runtime: the library's own allocator seam (Memory::Allocate / Deallocate c
        stay on as the supporting search.  Families:
          seq    C14 histories (Array<int>, Array<String>, String, StringStream, StringView)
          nested Array<Node> with nested Array<Node>: = / += whose source lives inside the destination (D52)
+         nestedops  the same container through explicit operations at explicit locations (the model's operations)
          value  C12 Value histories (copy, move, own-member assignment, Merge, Remove, Compress, pointers)
          htab   C13 hash-table histories (resize, remove, rename, merge by move, sort, copy)
          json   valid documents and every kind of rejected text (prefixes, damaged brackets, soup)
@@ -46,6 +55,7 @@ L_RE = re.compile(r"^L:(\d+):(\d+):(\d+):(-?\d+)$")
 DRIVERS = {
     "seq": ("drv_ledger_seq", "drv_ledger_seq.cpp", [], []),
     "nested": ("drv_nested_ledger", "drv_nested.cpp", [], []),
+    "nestedops": ("drv_ledger_nested_ledger", "drv_ledger_nested.cpp", [], []),
     "value": ("drv_value_ledger", "drv_value.cpp", [], []),
     "htab": ("drv_htab_ledger", "drv_htab.cpp", [], []),
     "json": ("drv_json_ledger", "drv_json.cpp", [], []),
@@ -55,6 +65,7 @@ DRIVERS = {
 FORMATS = {
     "seq": "<kind ai|as|s|t|v> <width> <op;op;...>   (cpp/drv_seq.cpp)",
     "nested": "script of choices a,b,c,...: tree shape, then (op, index) pairs   (cpp/drv_nested.cpp: Array<Node> with nested Array<Node>; D52 shapes)",
+    "nestedops": "<op;op;...> on Array<Node>: P/<d>/<id>/<g> push, M/<d>/<s> d=Move(s), C/<d>/<s> d=s, A/<d>/<s>/<g> d+=s, B/<d>/<s>/<g> d+=Move(s); locations 0 = a, 0.i.0 = a[i].kids   (cpp/drv_ledger_nested.cpp, coq/LedgerNestedModel.v)",
     "value": "<mode> <history>   (cpp/drv_value.cpp, ocaml/value.ml)",
     "htab": "T <inst> <keys k0/k1/..> <ops>   (cpp/drv_htab.cpp)",
     "json": "<kind P|X|S|R> <width> <units | tree>   (cpp/drv_json.cpp)",
@@ -196,6 +207,83 @@ def gen_nested(rng, tier, boost=1):
     """Array<Node> whose elements own nested Array<Node>: the right-hand side of = / += lives inside the destination (D52)"""
     n = (3000 if tier == "quick" else 40000) * boost
     return [",".join(str(rng.randrange(0, 50)) for _ in range(rng.choice([12, 24, 40]))) for _ in range(n)], {"nested_scripts": n}
+
+
+def _nested_paths(tree, base):
+    out = [base]
+    for i, (_id, kids) in enumerate(tree):
+        out += _nested_paths(kids, base + [i, 0])
+    return out
+
+
+def _nested_get(tree, p):
+    cur = tree
+    for k in range(1, len(p) - 1, 2):
+        if p[k] >= len(cur):
+            return None
+        cur = cur[p[k]][1]
+    return cur
+
+
+def _deep(t):
+    return [[i, _deep(k)] for (i, k) in t]
+
+
+def _size(t):
+    return sum(1 + _size(k) for (_i, k) in t)
+
+
+def gen_nested_history(rng, nops):
+    """operations of coq/LedgerNestedModel.v over a python mirror (value semantics) that only serves to pick
+    locations that resolve; d strictly inside s is never generated (outside the domain)"""
+    tree = []
+    ops = []
+    nid = 0
+    for _ in range(nops):
+        paths = _nested_paths(tree, [0])
+        d = rng.choice(paths)
+        r = rng.random()
+        fp = lambda q: ".".join(str(x) for x in q)
+        if r < 0.45 or len(paths) < 2:
+            if rng.random() < 0.05:
+                d = d + [rng.randrange(4), 0]       # may not resolve: skipped on both sides
+            nid += 1
+            ops.append("P/%s/%d/%d" % (fp(d), nid, rng.randrange(2)))
+            a = _nested_get(tree, d)
+            if a is not None:
+                a.append([nid, []])
+            continue
+        # prefer a source inside the destination (the D52 shapes), sometimes unrelated / equal
+        inside = [q for q in paths if len(q) > len(d) and q[:len(d)] == d]
+        s = rng.choice(inside) if inside and rng.random() < 0.7 else rng.choice(paths)
+        if len(s) < len(d) and d[:len(s)] == s:
+            d, s = s, d
+        kind = rng.choice("MCAB") if _size(tree) < 40 else rng.choice("MMCB")
+        g = rng.randrange(2)
+        ops.append("%s/%s/%s" % (kind, fp(d), fp(s)) + ("/%d" % g if kind in "AB" else ""))
+        da, sa = _nested_get(tree, d), _nested_get(tree, s)
+        if da is None or sa is None:
+            continue
+        if kind == "M":
+            sub = sa[:]
+            del sa[:]
+            da2 = _nested_get(tree, d)
+            da2[:] = sub
+        elif kind == "C":
+            da[:] = _deep(sa)
+        elif kind == "A":
+            da.extend(_deep(sa))
+        else:
+            sub = sa[:]
+            del sa[:]
+            _nested_get(tree, d).extend(sub)
+    return ops
+
+
+def gen_nestedops(rng, tier, boost=1):
+    n = (3000 if tier == "quick" else 40000) * boost
+    cases = [";".join(gen_nested_history(rng, rng.choice([4, 8, 14, 22, 30]))) for _ in range(n)]
+    return cases, {"nested_op_histories": n}
 
 
 def gen_value(rng, tier, boost=1):
@@ -366,7 +454,7 @@ def gen_cache(rng, tier, boost=1):
     return cases, {"cache_scripts": n}
 
 
-GENS = [("seq", gen_seq), ("nested", gen_nested), ("value", gen_value), ("htab", gen_htab), ("json", gen_json), ("tmpl", gen_tmpl), ("cache", gen_cache)]
+GENS = [("seq", gen_seq), ("nested", gen_nested), ("nestedops", gen_nestedops), ("value", gen_value), ("htab", gen_htab), ("json", gen_json), ("tmpl", gen_tmpl), ("cache", gen_cache)]
 
 
 def corpus_cases():
@@ -391,6 +479,8 @@ def splitter(fam, case):
         return [t for t in tk[2].split(";") if t], lambda u: " ".join(tk[:2] + [";".join(u) if u else "-"])
     if fam == "nested":
         return parse_list(case), lambda u: fmt_list(u) if u else "0"
+    if fam == "nestedops":
+        return [t for t in case.split(";") if t], lambda u: ";".join(u) if u else "P/9/1/0"
     if fam == "value":
         return tk[1].split(";"), lambda u: tk[0] + " " + (";".join(u) if u else "-")
     if fam == "htab":
@@ -460,7 +550,7 @@ def proof_stage(rep):
     if not os.path.exists(os.path.join(vlib.COQ, PROP_V)):
         res["log"] = "coq/%s is missing" % PROP_V
         return res
-    okm, mlog = vlib.coq_make([PROP_V + "o"])
+    okm, mlog = vlib.coq_make([PROP_V + "o", "Extract_ledger.vo"])
     res["log"] = mlog[-5000:]
     # the audit covers the files Properties_C16.v is built from (other components' files are audited by their own checks;
     # Print Assumptions below is the kernel's own answer for these theorems)
@@ -567,6 +657,43 @@ def check(tier):
                 d["text"] = text_of(parse_list(tk[2]))
             rep.violation(d)
 
+    # correspondence of the nested-array ownership model (coq/LedgerNestedModel.v, extracted) with the real
+    # Array<Node>: contents after every step: I = implementation, M = ownership model, S = value-semantics specification
+    corr = {"cases": 0, "oracle_failures": 0, "model_impl_mismatches": 0}
+    pexe, pmsg = vlib.build_cpp("drv_ledger_nested", "drv_ledger_nested.cpp")
+    mexe, mmsg = vlib.build_ocaml("ledger")
+    if pexe is None or mexe is None:
+        rep.violation({"broken": ["cpp/drv_ledger_nested.cpp or the extracted model (coq/Extract_ledger.v, ocaml/ledger.ml) does not build"],
+                       "log": ((pmsg if pexe is None else mmsg) or "")[-3000:]}, no_input=True)
+    else:
+        crng = random.Random(rng.randrange(1 << 30))
+        ccases, _cd = gen_nestedops(crng, tier, boost)
+        ccases = [c for (f, c) in corp if f == "nestedops"] + ccases
+        r = vlib.differential("ledger", pexe, ccases)
+        corr = {"cases": len(ccases), "oracle_failures": len(r.oracle_fail), "model_impl_mismatches": len(r.mismatch), "crashes": len(r.crashes)}
+        total += len(ccases)
+
+        def shrink_corr(c, pred):
+            def fails(u):
+                if not u:
+                    return False
+                return pred(vlib.differential("ledger", pexe, [";".join(u)]))
+            return ";".join(vlib.shrink_list(c.split(";"), fails, max_steps=150))
+
+        for (c, i, m, tag) in r.oracle_fail[:2]:
+            small = shrink_corr(c, lambda rr: bool(rr.oracle_fail))
+            rr = vlib.differential("ledger", pexe, [small])
+            ii, mm = (rr.oracle_fail[0][1], rr.oracle_fail[0][2]) if rr.oracle_fail else (i, m)
+            found_input = True
+            rep.violation({"component": "ledger/nestedops (contents)", "family": "nestedops", "case": small, "format": FORMATS["nestedops"],
+                           "observed_impl": ii[:2000], "model": mm[:2000], "oracle": "fails: contents after some step differ from nested vectors with value semantics (or the run crashed)",
+                           "model_agrees_with_impl": tag == "same"})
+        if not r.oracle_fail and (r.mismatch or r.bad):
+            c0 = (r.mismatch or r.bad)[0]
+            small = shrink_corr(c0[0], lambda rr: bool(rr.mismatch or rr.bad)) if r.mismatch else c0[0]
+            rep.violation({"broken": ["correspondence LedgerNestedModel.nstep vs Array<Node> (cpp/drv_ledger_nested.cpp) differs: the ownership model reports an error or other contents where the implementation meets the specification"],
+                           "first_mismatch": {"case": small, "impl": c0[1][:1500], "model": c0[2][:1500]}, "searched_cases": len(ccases)}, no_input=True)
+
     if not found_input and not proof_ok:
         rep.violation({"broken": ["coq/Properties_C16.vo no longer builds or is not closed (ledger theorems c16_* not re-established)"],
                        "coq_log": st["log"][-3000:], "searched_cases": total}, no_input=True)
@@ -580,11 +707,13 @@ def check(tier):
         "samples": samples[:6],
         "input_distribution": dist,
         "per_family": per_family,
+        "nested_model_correspondence": corr,
         "allocation_counts_are": "diagnostic only (how many blocks a container holds is policy, not contract)",
         "oracle_failures": sum(v["verdict_failures"] for v in per_family.values()),
     })
     rep.assumptions = [
         "the theorems are about (1) the block-heap model coq/SeqModel.v (Array<int>, String, StringStream; the model of the C14 theorems) with the observers of coq/LedgerModel.v and (2) the ownership model of Value trees coq/LedgerValueModel.v; Array<String> elements, hash-table internals, tag records, expression lists and the JSON / template parsers' failure paths are NOT modelled: for them C16 rests on the runtime ledger + sanitizers reported here (finite search)",
+        "nested-array model: tied to the C++ by the correspondence run reported under nested_model_correspondence (contents after every step: implementation = extracted ownership model = extracted value-semantics specification; finite); that the model's contents equal the specification for ALL histories is tested, not proved; d strictly inside s (assigning / appending a container into one of its own parts) is outside the domain",
         "Value model: targets are value positions (variable, array element, value of an item); moving a value into one of its own members and Merge / append-of-a-value between a value and its own member or ancestor are outside the domain (no-ops in the model, skipped by the drivers); Value::Compress is the model's one-level OCompress applied at the node and then at every container child",
         "whether a destructor really runs, and use after release, are decided by the C++ runtime: covered by ASan / LSan on the generated cases, not by the theorems",
         "the ledger sees the library's allocator seam (Memory::Allocate / Deallocate); blocks adopted from or detached to the caller are allocated / released by the driver through the same seam",
@@ -600,6 +729,18 @@ def replay(path):
     if not case or fam not in DRIVERS:
         print("replay names a broken obligation, not an input:", d.get("broken"))
         return 1
+    if str(d.get("component", "")).endswith("(contents)"):
+        pexe, _m = vlib.build_cpp("drv_ledger_nested", "drv_ledger_nested.cpp")
+        r = vlib.differential("ledger", pexe, [case])
+        print("case:", case)
+        for (c, i, m, tag) in r.oracle_fail:
+            print("impl:", i, "\nmodel:", m, "\noracle: FAIL")
+            return 1
+        for (c, i, m) in r.mismatch:
+            print("impl:", i, "\nmodel:", m, "\noracle: ok, model differs")
+            return 1
+        print("oracle ok, model agrees")
+        return 0
     exe, msg = build(fam)
     if exe is None:
         print("driver does not build:", msg[-2000:])
